@@ -161,17 +161,18 @@ _driver_built = False
 
 
 def run_driver(lines, timeout=3000):
-    """feed request lines to the Lean model driver; returns the reply lines"""
+    """feed request lines to the Lean model driver (compiled from the Mathlib-free model files by `lake build
+    nvdriver`; the same definitions the theorems are about); returns the reply lines"""
     global _driver_built
     if not _driver_built:
-        ok, log = lake_build(['NautilusVerif.Driver.All'])
+        ok, log = lake_build(['nvdriver'])
         if not ok:
             raise RuntimeError('driver build failed: ' + log[-2000:])
         _driver_built = True
     data = '\n'.join(lines) + '\n'
-    with LeanLock():
-        p = subprocess.run(['lake', 'env', 'lean', '--run', 'Driver/Main.lean'], cwd=LEAN, input=data,
-                           stdout=subprocess.PIPE, stderr=subprocess.PIPE, text=True, timeout=timeout)
+    exe = os.path.join(LEAN, '.lake', 'build', 'bin', 'nvdriver')
+    p = subprocess.run([exe], cwd=LEAN, input=data, stdout=subprocess.PIPE, stderr=subprocess.PIPE, text=True,
+                       timeout=timeout)
     if p.returncode != 0:
         raise RuntimeError('Lean driver failed: ' + p.stderr[-2000:] + p.stdout[-500:])
     out = p.stdout.split('\n')
@@ -180,6 +181,16 @@ def run_driver(lines, timeout=3000):
     if len(out) != len(lines):
         raise RuntimeError('Lean driver returned %d lines for %d requests' % (len(out), len(lines)))
     return out
+
+
+def run_driver_parallel(lines, nproc=16):
+    """like run_driver, but one driver process per request, `nproc` at a time (for few, large requests)"""
+    from concurrent.futures import ThreadPoolExecutor
+    if not lines:
+        return []
+    run_driver(['centre 1 -1'])       # make sure the executable is built (serialised)
+    with ThreadPoolExecutor(max_workers=nproc) as ex:
+        return [r[0] for r in ex.map(lambda l: run_driver([l]), lines)]
 
 
 # ----------------------------------------------------------------------------- verdicts
@@ -323,8 +334,11 @@ class Check:
                 self.pid, os.path.relpath(path, VERIF)))
             violations += 1
         self.write_evidence(violations)
+        printed = set()
         for l in lines:
-            print(l)
+            if l not in printed:
+                print(l)
+                printed.add(l)
         sys.stdout.flush()
         if self.infra_error:
             print('INFRASTRUCTURE ERROR: ' + self.infra_error, file=sys.stderr)
